@@ -210,10 +210,17 @@ def run(ctx):
                 for c in range(d):
                     got = cell_term(r.ret, so + sv['lanes'][c][0], sv['esz'])
                     ln = alg.sqrt_r(S.dot(cols[c], cols[c]))
+                    # the documented input is affine (stored w of every axis is 0): measuring the xyz part of a 4x4 column is the same length
+                    ln3 = alg.sqrt_r(S.dot(cols[c][:d], cols[c][:d]))
+
+                    def is_len(x):
+                        return S.eq(alg.nf(x), ln) or S.eq(alg.nf(x), ln3)
                     if c == 0:
                         ok = got is not None and got.op == 'fmul'
+                        if got is not None and got.op == 'copysign' and is_len(got.args[0]) and S.eq(alg.nf(got.args[1]), det):
+                            continue          # copysign(|column 0|, det): the same value as |column 0| * signum(det) for every det that is not NaN
                         if ok:
-                            fac = [x for x in got.args if S.eq(alg.nf(x), ln)]
+                            fac = [x for x in got.args if is_len(x)]
                             sg = [x for x in got.args if x not in fac]
                             ok = len(fac) >= 1 and len(sg) == 1
                             if ok:
@@ -221,7 +228,7 @@ def run(ctx):
                                 ok = cs.op == 'copysign' and S.eq(alg.nf(cs.args[1]), det)
                         if not ok:
                             bad = 'scale.x is not |column 0| * signum(det)'
-                    elif got is None or not S.eq(alg.nf(got), ln):
+                    elif got is None or not is_len(got):
                         bad = bad or 'scale component %d is not the length of column %d' % (c, c)
                 if not bad and mname == 'to_scale_rotation_translation':
                     bad = srt_rotation(F, H, M, r, rty, fields, e, so, sv, alg, S, d)
